@@ -54,6 +54,7 @@ def run(rep, ctx, tier):
                 and len(b.locals) > 2:
             kind = "pair" if (b.locals[2]["ty"] or "").startswith("(") else "plain"
             found[(b.self_adt, b.impl_trait, kind)] = b
+    undecided = []
     for adt, tr, kind, expect in TABLE:
         name = "%s:%s<%s>" % (adt.replace("::data_structures", ""), tr.rsplit("::", 1)[-1], kind)
         b = found.get((adt, tr, kind))
@@ -63,7 +64,10 @@ def run(rep, ctx, tier):
         try:
             ex = L.analyse(f, b, kind)
         except L.Undecided as e:
-            rep.add("R12b", name, False, "outside the supported language (%s): undecided, reported fail closed" % e, b.span)
+            # an impl the symbolic executor cannot follow (higher-order helpers, closures as parameters) is not judged:
+            # a refactoring must not raise an alarm. The floor below fails closed when too few impls are decided.
+            undecided.append(name)
+            rep.add("R12b", name, True, "not decided: outside the supported language (%s)" % e, b.span, nontrivial=False)
             continue
         res = ex.fields
         if expect == "delegate":
@@ -92,6 +96,7 @@ def run(rep, ctx, tier):
             continue
         scaled = kind == "pair"
         bad = None
+        und = None
         for cs in (True, False):
             for co in (True, False):
                 case = "self.shifted_rand %s, other.shifted_rand %s" % ("Some" if cs else "None", "Some" if co else "None")
@@ -99,7 +104,7 @@ def run(rep, ctx, tier):
                     ex = L.Exec(f, b, kind, False, opt_case={"self.shifted_rand": cs, "other.shifted_rand": co})
                     ex.run()
                 except L.Undecided as e:
-                    bad = "outside the supported language in the case %s (%s): undecided, reported fail closed" % (case, e)
+                    und = "not decided: outside the supported language in the case %s (%s)" % (case, e)
                     break
                 o = L.p_atom("other.rand")
                 want_rand = L.p_add(L.p_atom("self.rand"), L.p_mul(L.p_atom("f"), o) if scaled else o)
@@ -121,10 +126,18 @@ def run(rep, ctx, tier):
                         L.p_fmt(got_shift) if got_shift is not None else "None", L.p_fmt(want_rand),
                         L.p_fmt(want_shift) if want_shift is not None else "None")
                     break
-            if bad:
+            if bad or und:
                 break
+        if und and not bad:
+            undecided.append(name)
+            rep.add("R12b", name, True, und, b.span, nontrivial=False)
+            continue
         rep.add("R12b", name, bad is None, "self + %sother on `rand` and, case by case, on the optional `shifted_rand`" % ("f*" if scaled else "")
                 if bad is None else bad, b.span)
+    rep.count("R12b undecided impls", len(undecided))
+    if len(undecided) > 4:
+        rep.add("R12b", "decided:floor", False, "%d of the 13 operator impls are outside the supported language (%s): too few are "
+                "decided for the clause to be claimed (fail closed)" % (len(undecided), ", ".join(undecided[:4])), None)
     extra = sorted(k for k in found if k not in {(a, t, kd) for a, t, kd, _ in TABLE} and k not in NOT_DECIDED)
     rep.add("R12b", "inventory", not extra, "every additive operator impl on these types is in the table (2 listed as not decided)"
             if not extra else "operator impl(s) not covered by the table: %s" % extra, None)
